@@ -141,7 +141,7 @@ func deriveShaOf(v ssa.Value, listType string) bool {
 func c02(c *Ctx) {
 	p, r := c.P, c.R
 	r.Technique = "per-content-type must-pass-through (cut) checks on the history validator (cases enumerated from the switch on the key's selector), comparison-pair table for body/receipt roots, binding check of every network-sourced oracle result, and validation-before-store/return gating in the history network"
-	r.Explanation = "Decides: (R1) for each content-type case of the history validator (every case found must have a rule; unknown selectors must fail): header-by-hash - the proof validator is reached only after hash(decoded header) == key[1:] and success is exactly the proof validator's verdict for that header and that proof; header-by-number - likewise with header.Number == number decoded from the key; body - the header comes from the oracle for key[1:] and success is exactly the body validator's verdict for (content, that header); receipts - success is the receipt validator's verdict for (content, that header's ReceiptHash), the empty shortcut only under ReceiptHash == empty root and len(content) == 0; (R2) the body validator returns nil only after CalcUncleHash(uncles) == header.UncleHash, DeriveSha(transactions) == header.TxHash and DeriveSha(withdrawals) == header.WithdrawalsHash, the last skipped only when header.WithdrawalsHash == nil; the receipt validator only after DeriveSha(receipts) == the root it was given; (R3) every Oracle implementation that obtains its answer over the in-process RPC (network look-ups return unvalidated bytes) binds it before returning: header-by-hash results to the requested hash, summaries to a trusted root; (R4) in the history network every store Put and every success return that follows a network ContentLookup is reached only after ValidateContent(same key, same content) returned nil, and the offered-content loop stores only validated items; outside the history network no store write anywhere in the module takes its content from a network look-up without a ValidateContent gate (the store is trusted by the block getters and the offer filter); the function that cuts a raw pre-merge proof into branches succeeds only for lengths that are a multiple of 32 (no padding of a truncated item). Not decided: collision resistance, correctness of DeriveSha/RLP/SSZ decoders, trailing or non-canonical bytes accepted by decoders, the whole rejected set."
+	r.Explanation = "Decides: (R1) for each content-type case of the history validator (every case found must have a rule; unknown selectors must fail): header-by-hash - the proof validator is reached only after hash(decoded header) == key[1:] and success is exactly the proof validator's verdict for that header and that proof; header-by-number - likewise with header.Number == number decoded from the key; body - the header comes from the oracle for key[1:] and success is exactly the body validator's verdict for (content, that header); receipts - success is the receipt validator's verdict for (content, that header's ReceiptHash), the empty shortcut only under ReceiptHash == empty root and len(content) == 0; (R2) the body validator returns nil only after CalcUncleHash(uncles) == header.UncleHash, DeriveSha(transactions) == header.TxHash and DeriveSha(withdrawals) == header.WithdrawalsHash, the last skipped only when header.WithdrawalsHash == nil; the receipt validator only after DeriveSha(receipts) == the root it was given; (R3) every Oracle implementation that obtains its answer over the in-process RPC (network look-ups return unvalidated bytes) binds it before returning: header-by-hash results to the requested hash, summaries to a trusted root; the header is compared with the requested hash as it was given (a copy made by a length-normalising helper counts only under a length check); (R4) in the history network every store Put and every success return that follows a network ContentLookup is reached only after ValidateContent(same key, same content) returned nil, and the offered-content loop stores only validated items; outside the history network no store write anywhere in the module takes its content from a network look-up without a ValidateContent gate (the store is trusted by the block getters and the offer filter); the function that cuts a raw pre-merge proof into branches succeeds only for lengths that are a multiple of 32 (no padding of a truncated item). Not decided: collision resistance, correctness of DeriveSha/RLP/SSZ decoders, trailing or non-canonical bytes accepted by decoders, the whole rejected set."
 	r.Assumptions = []string{"go-ethereum types.Header.Hash, CalcUncleHash, DeriveSha", "a hash equal to the key's hash identifies the header (collision resistance)"}
 	r.Floor("R1.case", 8)
 	r.Floor("R2.body-roots", 3)
@@ -738,7 +738,36 @@ func lostErrorRule(c *Ctx, rule, what string, roots []*ssa.Function, pkgs []stri
 func oracleHeaderBinding(c *Ctx, rule string, m *ssa.Function) {
 	p, r := c.P, c.R
 	hashP := m.Params[1]
-	g := bytesEqualFact(func(v ssa.Value) bool { return derivesFromCall(v, gethHeaderHash, nil) }, func(v ssa.Value) bool { return derivesFromParam(v, hashP) })
+	// the requested hash as it was given: a copy made by a length-normalising helper
+	// (common.BytesToHash crops an over-long argument to its last 32 bytes and pads a short one)
+	// is not the request - a key with extra or missing bytes would be bound to another block
+	asGiven := func(v ssa.Value) bool {
+		if !derivesFromParam(v, hashP) {
+			return false
+		}
+		lossy := false
+		core.Derives(v, func(x ssa.Value) bool {
+			if cc, ok := x.(*ssa.Call); ok {
+				id := core.CalleeID(cc)
+				if strings.HasSuffix(id, "common.BytesToHash") || strings.HasSuffix(id, ").SetBytes") || strings.HasSuffix(id, "common.BytesToAddress") || strings.HasSuffix(id, "common.LeftPadBytes") || strings.HasSuffix(id, "common.RightPadBytes") {
+					lossy = true
+				}
+			}
+			return false
+		}, core.DeriveOpts{ThroughCalls: true})
+		if !lossy {
+			return true
+		}
+		// fine when the length was checked to be the hash length on every path
+		exact := core.AnyFact(func(f core.Fact) bool {
+			return core.CmpFact(f, func(op token.Token, x, y ssa.Value) bool {
+				k, isC := core.ConstInt(y)
+				return op == token.EQL && isC && k == 32 && core.IsLenOf(x, func(z ssa.Value) bool { return z == ssa.Value(hashP) })
+			})
+		})
+		return core.CutReach(core.CutSpec{Fn: m, Cut: func(b *ssa.BasicBlock, i int) bool { return exact(core.EdgeFacts(b, i)) }, Target: core.SuccessTarget(m, nil)}) == nil
+	}
+	g := bytesEqualFact(func(v ssa.Value) bool { return derivesFromCall(v, gethHeaderHash, nil) }, asGiven)
 	w := core.CutReach(core.CutSpec{Fn: m, Cut: func(b *ssa.BasicBlock, i int) bool { return g(core.EdgeFacts(b, i)) }, Target: core.SuccessTarget(m, nil)})
 	r.Check(w == nil, rule, core.FuncName(m), p.Pos(m.Pos()), "the looked-up header is returned only if its hash equals the requested hash", "the oracle can return a header whose hash was not compared with the requested one (a lying peer, or a cache filled before the comparison, chooses the header that bodies, receipts and state proofs are checked against): "+p.PathString(w))
 }
